@@ -7,7 +7,8 @@
 //     source order, each with the source of its value, local definitions resolved,
 //   - how Sign builds the JOSE signer (signing key, header options),
 //   - the assignments of jwtSigner.load that select the active entry and build the published list,
-//   - the fields of the composite literal returned by keystore.Entry.JWK and the key size -> algorithm tables.
+//   - the fields of the composite literal returned by keystore.Entry.JWK, the key size -> algorithm tables, the
+//     sizes keystore.Entry.CheckJOSESupport accepts and the statements of keystore.SelectKey.
 //
 // Only go/ast, go/parser and go/token are used. It fails closed: a shape it does not understand aborts the
 // extraction with exit code 3.
@@ -953,6 +954,131 @@ func pairList(l [][2]string) string {
 	return "[\n" + strings.Join(parts, ",\n") + "\n]"
 }
 
+// flow: the statements of a small function as text, in source order: "if <cond> {", "}", "else {", "return <results>",
+// "<lhs> = <rhs>"; anything else aborts the extraction
+func flow(fd *ast.FuncDecl) []string {
+	var (
+		res  []string
+		walk func(stmts []ast.Stmt)
+	)
+
+	walk = func(stmts []ast.Stmt) {
+		for _, st := range stmts {
+			switch v := st.(type) {
+			case *ast.IfStmt:
+				if v.Init != nil {
+					walk([]ast.Stmt{v.Init})
+				}
+
+				res = append(res, "if "+src(v.Cond)+" {")
+				walk(v.Body.List)
+				res = append(res, "}")
+
+				if v.Else != nil {
+					res = append(res, "else {")
+
+					if b, ok := v.Else.(*ast.BlockStmt); ok {
+						walk(b.List)
+					} else {
+						walk([]ast.Stmt{v.Else})
+					}
+
+					res = append(res, "}")
+				}
+			case *ast.ReturnStmt:
+				parts := make([]string, len(v.Results))
+				for i, r := range v.Results {
+					parts[i] = src(r)
+				}
+
+				res = append(res, "return "+strings.Join(parts, ", "))
+			case *ast.AssignStmt:
+				lhs := make([]string, len(v.Lhs))
+				for i, l := range v.Lhs {
+					lhs[i] = src(l)
+				}
+
+				rhs := make([]string, len(v.Rhs))
+				for i, r := range v.Rhs {
+					rhs[i] = src(r)
+				}
+
+				res = append(res, strings.Join(lhs, ", ")+" = "+strings.Join(rhs, ", "))
+			case *ast.BlockStmt:
+				walk(v.List)
+			case *ast.EmptyStmt:
+			default:
+				fail(st, "unsupported statement %T in %s", st, fd.Name.Name)
+			}
+		}
+	}
+
+	walk(fd.Body.List)
+
+	return res
+}
+
+// supportTable: CheckJOSESupport is `switch e.Alg { case X: switch e.KeySize { case a, b, c: return nil }; return err
+// ... default: return err }`; returns per family the sizes for which nil is returned
+func supportTable(fd *ast.FuncDecl, consts map[string]string) string {
+	if len(fd.Body.List) != 1 {
+		fail(fd, "CheckJOSESupport is not a single switch")
+	}
+
+	sw, ok := fd.Body.List[0].(*ast.SwitchStmt)
+	if !ok || src(sw.Tag) != "e.Alg" {
+		fail(fd, "CheckJOSESupport does not switch on e.Alg")
+	}
+
+	var parts []string
+
+	for _, c := range sw.Body.List {
+		cc := c.(*ast.CaseClause) //nolint:forcetypeassert
+		if cc.List == nil {
+			if len(cc.Body) != 1 || strings.HasPrefix(src(cc.Body[0]), "return nil") {
+				fail(cc, "default case of CheckJOSESupport does not return an error")
+			}
+
+			continue
+		}
+
+		if len(cc.List) != 1 || len(cc.Body) != 2 {
+			fail(cc, "unsupported case of CheckJOSESupport")
+		}
+
+		inner, isSwitch := cc.Body[0].(*ast.SwitchStmt)
+		if !isSwitch || src(inner.Tag) != "e.KeySize" || strings.HasPrefix(src(cc.Body[1]), "return nil") {
+			fail(cc, "unsupported case of CheckJOSESupport")
+		}
+
+		var sizes []string
+
+		for _, ic := range inner.Body.List {
+			icc := ic.(*ast.CaseClause) //nolint:forcetypeassert
+			if icc.List == nil || len(icc.Body) != 1 || src(icc.Body[0]) != "return nil" {
+				fail(icc, "unsupported size case of CheckJOSESupport")
+			}
+
+			for _, x := range icc.List {
+				val := src(x)
+				if v, known := consts[val]; known {
+					val = v
+				}
+
+				if _, err := strconv.Atoi(val); err != nil {
+					fail(x, "size %s is not an integer constant", val)
+				}
+
+				sizes = append(sizes, val)
+			}
+		}
+
+		parts = append(parts, "("+q(src(cc.List[0]))+", ["+strings.Join(sizes, ", ")+"])")
+	}
+
+	return "[" + strings.Join(parts, ", ") + "]"
+}
+
 // natTable: (size, jose.X) pairs as Lean (Nat × String) list; the default case must be the final panic
 func natTable(t [][2]string) string {
 	if len(t) == 0 || t[len(t)-1] != [2]string{"default", "panic"} {
@@ -1067,8 +1193,8 @@ func main() {
 
 	var b strings.Builder
 
-	fmt.Fprintf(&b, "-- generated by /verif/extract/signer from internal/rules/mechanisms/finalizers/jwt_signer.go and\n")
-	fmt.Fprintf(&b, "-- internal/keystore/entry.go of the checked source tree; do not edit\n")
+	fmt.Fprintf(&b, "-- generated by /verif/extract/signer from internal/rules/mechanisms/finalizers/jwt_signer.go,\n")
+	fmt.Fprintf(&b, "-- internal/keystore/entry.go and internal/keystore/key_store.go of the checked source tree; do not edit\n")
 	fmt.Fprintf(&b, "namespace Heimdall.Gen.Signer\n\n")
 
 	var mnames []string
@@ -1136,6 +1262,13 @@ func main() {
 		natTable(sizeTable(funcDecl(ef, "", "getRSAAlgorithm"), consts)))
 	fmt.Fprintf(&b, "def ecdsaAlgorithms : List (Nat × String) := %s\n\n",
 		natTable(sizeTable(funcDecl(ef, "", "getECDSAAlgorithm"), consts)))
+	fmt.Fprintf(&b, "/-- `Entry.CheckJOSESupport`: per key family the sizes it accepts; everything else is an error -/\n")
+	fmt.Fprintf(&b, "def joseSupport : List (String × List Nat) := %s\n\n",
+		supportTable(funcDecl(ef, "Entry", "CheckJOSESupport"), consts))
+
+	kf := parse(filepath.Join(*repo, "internal/keystore/key_store.go"))
+	fmt.Fprintf(&b, "/-- `keystore.SelectKey`, statement by statement -/\n")
+	fmt.Fprintf(&b, "def selectKey : List String := %s\n\n", strList(flow(funcDecl(kf, "", "SelectKey")), ""))
 	fmt.Fprintf(&b, "end Heimdall.Gen.Signer\n")
 
 	fmt.Print(b.String())
